@@ -205,17 +205,33 @@ def h_tag_string_lemma():
         tag = vm.call(gfn, [C], {})
         ctx.check("get_full_class_name::is-module-dot-name", zstr(tag) == z3.Concat(m, z3.StringVal("."), nme))
         # the statement from_json executes on the tag
+        # the statement from_json executes on the tag - taken from the REAL ast of from_json (the first assignment that splits a
+        # string), not from a copy: the tag variable and the two targets are whatever the repository calls them
+        fj = vm.loader.cls(JS, "SubclassJSONSerializer").methods["from_json"]
+        stmt = None
+        for node in ast.walk(fj.node):
+            if isinstance(node, ast.Assign) and isinstance(node.value, ast.Call) and isinstance(node.value.func, ast.Attribute) \
+                    and "split" in node.value.func.attr and isinstance(node.value.func.value, ast.Name):
+                stmt = node
+                break
+        if stmt is None:
+            ctx.fail("from_json::tag-splits-back-into-module-and-class-name", detail="no string-splitting assignment found in from_json")
+            return
+        source_name = stmt.value.func.value.id
+        targets = [x.id for x in ast.walk(stmt.targets[0]) if isinstance(x, ast.Name)]
         fr = Frame(vm, vm.loader.module(JS))
-        fr.locals["fully_qualified_class_name"] = tag
-        gen = vm.exec_block(ast.parse('module_name, class_name = fully_qualified_class_name.rsplit(".", 1)').body, fr)
+        fr.locals[source_name] = tag
+        gen = vm.exec_block([stmt], fr)
         try:
             while True:
                 next(gen)
         except StopIteration:
             pass
         ctx.cover("split")
+        ok_shape = len(targets) == 2
         ctx.check("from_json::tag-splits-back-into-module-and-class-name",
-                  z3.And(zstr(fr.locals["module_name"]) == m, zstr(fr.locals["class_name"]) == nme))
+                  z3.And(zstr(fr.locals[targets[0]]) == m, zstr(fr.locals[targets[1]]) == nme) if ok_shape else z3.BoolVal(False),
+                  detail=ast.unparse(stmt))
     return Harness("tag-string-lemma", run, spec=Spec(), covers=["split"], timeout_ms=30000)
 
 
